@@ -319,7 +319,7 @@ class World:
                 kw[fname] = U.decode(f.vt, enc)
         for fname, sub in spec.get("ch", {}).items():
             if isinstance(sub, list):
-                kw[fname] = tuple(self.build(s) for s in sub)
+                kw[fname] = tuple([self.build(s) for s in sub]) if spec.get("tl") else tuple(self.build(s) for s in sub)
             elif sub is None:
                 kw[fname] = None
             else:
@@ -366,9 +366,11 @@ class World:
         """Nodes constructed by user callbacks during the op (Hook.__post_init__) and kept by the user: the first few
         become ordinary handles, the rest are dropped at once."""
         sink = U.M.HOOK_SINK
+        self.adopted_now: set[int] = set()
         if not sink:
             return
         for o in sink:
+            self.adopted_now.add(id(o))
             n = self.__dict__.setdefault("_adopted", 0)
             if n < 8:
                 self._adopted = n + 1
@@ -549,7 +551,8 @@ class World:
                     op=kind,
                 )
         if outcome.startswith("raised") and kind == "replace" and exact:
-            now = {k: id(v) for k, v in list(NODE_REGISTRY.items())}
+            # (nodes that a user callback constructed and kept during the call are the user's doing, not replace()'s)
+            now = {k: id(v) for k, v in list(NODE_REGISTRY.items()) if id(v) not in getattr(self, "adopted_now", ())}
             if now != self.reg_before:
                 raise self.viol(
                     "C03.7 failed-replace-changed-registry",
@@ -1216,6 +1219,32 @@ class Gen:
         self.script = steps
         self.w.stats.probes["fault_script_started"] += 1
 
+    def start_wide_script(self, actor: str) -> None:
+        """Wide nodes come and go: a node with many children is dropped and collected, then another one of the same
+        width is built (its child tuple may land where the dead one's was), next to a live reference copy."""
+        w = self.w
+        r = self.r("wide")
+        steps: list[Any] = []
+        for _ in range(r.choice([1, 2, 3])):
+            width = r.choice([8, 9, 10, 11, 12, 13, 16])
+            tl = r.random() < 0.5
+            cls = r.choice(["Seq", "Seq", "SeqPlus", "Deco"])
+            fld = "value" if cls == "Deco" else "items"
+            o = r.choice(self.cfg["origins"])
+            pool = r.sample(self.cfg["pools"]["str"] * 8 + [f"w{i}" for i in range(20)], width * 2)
+            mk = lambda tag, vals: {"c": cls, "p": {}, "ch": {fld: [{"c": "LeafA", "p": {"a": v}, "ch": {}, "o": o} for v in vals]}, "o": o, "tl": tl}  # noqa: E731
+            a, b = pool[:width], pool[width:]
+            x, ref, y = self.out() + "x", self.out() + "r", self.out() + "y"
+            steps += [
+                lambda ac, x=x, a=a, mk=mk: {"op": "construct", "spec": mk("a", a), "out": x},
+                lambda ac, ref=ref, b=b, mk=mk: {"op": "construct", "spec": mk("b", b), "out": ref},
+                lambda ac, x=x: {"op": "drop", "h": x} if x in w.handles else None,
+                lambda ac: {"op": "gc"},
+                lambda ac, y=y, b=b, mk=mk: {"op": "construct", "spec": mk("b", b), "out": y},
+            ]
+        self.script = steps
+        w.stats.probes["wide_script_started"] += 1
+
     def start_script(self, actor: str) -> None:
         """A persister's multi-step script, other actors' ops interleave in its gaps: serialize a node whose id carries
         a collision suffix, lose every twin (crash), read it back, then update it functionally."""
@@ -1223,6 +1252,9 @@ class Gen:
         r = self.r("script")
         if self.cfg["prop"] == "C04" and self.cfg["faults"] and w.peer is not None and r.random() < 0.4:
             self.start_fault_script(actor)
+            return
+        if self.cfg["prop"] in ("C01", "C03", "C14") and r.random() < 0.35:
+            self.start_wide_script(actor)
             return
         cands = [n for n, h in w.handles.items() if h.kind == "node" and _SUFFIX.match(h.obj.id) and w.inf(h.obj).reg and len(walk(h.obj)) <= 8 and cname(h.obj) in U.CLS]
         if not cands:
@@ -1811,7 +1843,7 @@ def make_config(rseed: int, prop: str, tier: str, faults: bool) -> dict[str, Any
         "dyn_redefine": "Dyn" in leafs and r.random() < 0.6,
         "reuse_visitors": r.random() < 0.5,
         "dyn_keep_old": prop == "C03" and r.random() < 0.5,
-        "scripts": prop in ("C14", "C04", "C03") and r.random() < 0.6,
+        "scripts": prop in ("C14", "C04", "C03", "C01") and r.random() < 0.6,
         "trace_logging": r.random() < 0.1,
         "exotic_origins": exotic,
         "ser_faults": prop in ("C03", "C10", "C04"),
@@ -2788,6 +2820,7 @@ def op_transform(self: World, op: dict[str, Any]) -> str:
             collect()
             self.discover()
             before_reg = {kk: id(vv) for kk, vv in list(NODE_REGISTRY.items())}
+            sink0 = len(U.M.HOOK_SINK)
             v2 = make_visitor(rules, strict, self, shape=op.get("vshape", "flat"))
             FAULTS.disarm()
             FAULTS.reset_hits()
@@ -2809,6 +2842,7 @@ def op_transform(self: World, op: dict[str, Any]) -> str:
             finally:
                 FAULTS.disarm()
             del v2
+            del U.M.HOOK_SINK[sink0:]  # nodes made by user callbacks during the failed attempt: the user lets go of them
             self.stats.probes["transform_fault_enumerated"] += 1
             if not raised and judge:
                 raise self.viol("C09.12 fault-swallowed", "C09.12", f"visitor call {k} raised but transform returned normally")
